@@ -4,7 +4,7 @@ from ..absint import Interp, Ptr, OverRead, Unsupported, OPAQUE
 from ..cfg import paths_to
 from ..facts import AnalysisBroken, walk, key, cval
 from ..lin import Lin
-from ..util import (stores, lv_field, is_call, calls_in, refs, strip_casts, negate_truth, flatten_and,
+from ..util import (fact_list, stores, lv_field, is_call, calls_in, refs, strip_casts, negate_truth, flatten_and,
                     flatten_or, enclosing, resolve_local, path_consistent, nullness)
 from .w import _facts
 
@@ -225,42 +225,41 @@ def rule_T7(ctx):
 
 
 def rule_T8(ctx):
-    """led_readchar returns its static buffer only after terminating what it just stored."""
+    """led_readchar returns its static buffer only after terminating what it just stored: it is
+    evaluated abstractly with the buffer holding the remains of an earlier, longer character
+    (every byte non-zero) for the literal-next key and for each length class of lead byte; the
+    byte after the last one read must be NUL."""
     ctx.begin("T8", floor=2, what="returns of the static input buffer")
     prog = ctx.prog
     f = prog.func("led_readchar", file="led.c")
-    bufs = [v["name"] for v in f.walk() if v["k"] == "var" and v.get("arr_n") and "char" in v.get("ty", "")]
-    if not bufs:
-        raise AnalysisBroken("led_readchar: static buffer not found")
-    buf = bufs[0]
     n = 0
-    for r in f.cfg.return_nodes():
-        e = strip_casts(r.get("e")) if r.get("e") is not None else None
-        if e is None or e["k"] != "ref" or e["name"] != buf:
-            continue
-        bad = False
-        for items in paths_to(f.cfg, f.cfg.entry, r["id"]):
-            if not path_consistent(f, items):
-                continue
-            last = None
-            for x in items:
-                if x[0] != "ev":
-                    continue
-                nd = f.nodes.get(x[1])
-                if nd is not None and nd["k"] == "bin" and nd["op"] == "=" and nd["l"]["k"] == "sub" and \
-                        key(strip_casts(nd["l"]["base"])) == buf:
-                    last = nd
-            if last is None or cval(last["r"]) != 0:
-                bad = True
-        n += 1
-        if bad:
-            ctx.violation("led_readchar", "the returned buffer is terminated",
-                          "a path returns %s with a non-NUL store as the last store into it: the tail of the "
-                          "previous, longer character is still there" % buf, f.loc(r))
+    for c, nread in ((0x16, 1), (0xc3, 1), (0xe2, 2), (0xf0, 3)):
+        reads = []
+
+        def term_read(ip, fn, e, args, env):
+            reads.append(1)
+            return 0x80 + len(reads)
+        try:
+            v = Interp(prog, hooks={"term_read": term_read}, static_fill=0x41).call(f, [c, 0])
+        except (Unsupported, OverRead) as e:
+            raise AnalysisBroken("led_readchar not evaluable: %s" % e)
+        if isinstance(v, dict):
+            got = [v.get(i) for i in range(8)]
+        elif isinstance(v, Ptr):
+            got = [v.read(i) for i in range(8)]
         else:
-            ctx.ok("led_readchar", "every path to `return %s` ends its stores with the terminator" % buf, loc=f.loc(r))
-    if n < 2:
-        raise AnalysisBroken("led_readchar: only %d returns of the buffer" % n)
+            raise AnalysisBroken("led_readchar: result for key 0x%02x not a buffer" % c)
+        n += 1
+        end = (0 if c == 0x16 else 1) + len(reads)
+        if end >= len(got) or got[end] != 0:
+            ctx.violation("led_readchar", "the returned buffer is terminated",
+                          "for the key 0x%02x (%d more byte%s read) the buffer that is returned holds %s: no NUL after "
+                          "what was just stored, the tail of the previous, longer character is still there" % (
+                              c, len(reads), "" if len(reads) == 1 else "s", got), f.loc(f.body))
+            return
+    ctx.ok("led_readchar", "the byte after the last one stored is NUL for the literal-next key and the three "
+           "multi-byte length classes, whatever the buffer held before")
+    ctx.ok("led_readchar", "%d keys evaluated" % n)
 
 
 def rule_S6(ctx):
@@ -466,86 +465,168 @@ def _ceval(e, env):
     return None
 
 
+def _s8_paths(f, start_block, stop_block, rdvars):
+    """[(items, justified, how)] for the consistent paths from start_block to stop_block
+    (or to the exit when stop_block is None)"""
+    from ..cfg import enum_paths
+    cfg = f.cfg
+    stops = {stop_block} if stop_block is not None else set()
+    try:
+        paths = [p for p in enum_paths(cfg, start_block, stops) if p[1] == (stop_block if stop_block is not None else cfg.exit)]
+    except OverflowError:
+        raise AnalysisBroken("%s: too many paths" % f.name)
+    out = []
+    for items, _ in paths:
+        if not path_consistent(f, items):
+            continue
+        evs = [f.nodes.get(x[1]) for x in items if x[0] == "ev"]
+        did_read = any(e is not None and e["k"] == "call" and e.get("fn") == "lbuf_rd" for e in evs)
+        ok = None
+        known = {}
+        for x in items:
+            if x[0] != "br":
+                continue
+            c = f.nodes[x[1]]
+            t = int(bool(x[2]))
+            known = dict(known)
+            if did_read:
+                envs = []
+                for v in rdvars:
+                    envs += [{v: 1}, {v: -1}]
+                for rc in calls_in(c, "lbuf_rd"):
+                    envs += [{key(rc): 1}, {key(rc): -1}]
+                vals = [_ceval(c, dict(known, **e_)) for e_ in envs if any(k_ in key(c) for k_ in e_)]
+                if vals and all(v is not None and v != t for v in vals):
+                    ok = "the read returned 0"
+            lens = list(calls_in(c, "lbuf_len"))
+            if lens:
+                vals = [_ceval(c, dict(known, **{key(lens[0]): n_})) for n_ in (1, 7)]
+                if all(v is not None and v != t for v in vals):
+                    ok = ok or "the buffer is empty"
+            known[key(c)] = t
+        out.append((items, ok is not None, known, did_read))
+    return out
+
+
 def rule_S8(ctx):
     """ec_edit marks the buffer saved only when its text is what the file holds: on every path
     from the open() of the (re)load to lbuf_saved() either the read's status was tested zero, or
-    the buffer was tested empty, or -- failing both -- the buffer is a fresh one on every way in."""
+    the buffer was tested empty, or -- failing both -- the buffer is a fresh one on every way in.
+    The load may live in a helper: with lbuf_saved() inside it the helper is examined instead;
+    when it returns a status, the values it can return on unjustified paths are computed and
+    lbuf_saved() in ec_edit must be unreachable under them."""
     ctx.begin("S8", floor=1, what="a reload that read nothing is not marked saved")
-    from ..cfg import enum_paths
     prog = ctx.prog
-    f = prog.func("ec_edit", file="ex.c")
+    top = prog.func("ec_edit", file="ex.c")
+
+    def has(g, nm):
+        return any(True for _ in g.calls(nm))
+
+    loader = top
+    via = None
+    if not (has(top, "open") and has(top, "lbuf_rd")):
+        for c in top.calls():
+            g = prog.resolve(top, c["fn"]) if c.get("fn") else None
+            if g is not None and g.file == top.file and has(g, "open") and has(g, "lbuf_rd"):
+                loader, via = g, c
+        if via is None:
+            ctx.inconclusive("ec_edit", "reload marks saved only what was read", "open / lbuf_rd not found in ec_edit or a helper")
+            return
+    f = loader
     cfg = f.cfg
-    saved = list(f.calls("lbuf_saved"))
-    opens = list(f.calls("open"))
-    reads = list(f.calls("lbuf_rd"))
-    if not saved or not opens or not reads:
-        ctx.inconclusive("ec_edit", "reload marks saved only what was read",
-                         "open / lbuf_rd / lbuf_saved are not all in ec_edit itself")
+    rdvars = {lv["name"] for n, lv, op, rhs in stores(f.body)
+              if rhs is not None and op in ("=", "init") and is_call(strip_casts(rhs), "lbuf_rd") and lv["k"] in ("ref", "var")}
+    ob = cfg.pos(list(f.calls("open"))[0])[0]
+    fresh = list(top.calls("bufs_open"))
+    anchor = via if via is not None else list(top.calls("open"))[0]
+    always_fresh = bool(fresh) and top.cfg.search(top.cfg.entry, lambda e: e == anchor["id"],
+                                                  avoid=lambda e: any(e == b_["id"] for b_ in fresh), start_block=True) is None
+    msg = ("lbuf_saved() is reached from open() on a path where neither the read returned 0 nor "
+           "the buffer is empty, and `:e!` without a file name reloads the current buffer (no "
+           "bufs_open on that way in): when the file has disappeared or cannot be read, the text "
+           "stays and is reported clean, so :q loses it")
+    saved_here = list(f.calls("lbuf_saved"))
+    if saved_here:
+        for sv in saved_here:
+            sb = cfg.pos(sv)[0]
+            ps = _s8_paths(f, ob, sb, rdvars)
+            if not ps:
+                raise AnalysisBroken("%s: lbuf_saved() not reachable from open()" % f.name)
+            if all(j for _, j, _, _ in ps):
+                ctx.ok(f.name, "lbuf_saved() only after a read that returned 0 or on an empty buffer "
+                       "(%d paths from open())" % len(ps), loc=f.loc(sv))
+            elif always_fresh:
+                ctx.ok(f.name, "the buffer is a fresh one whenever the load is attempted", loc=f.loc(sv))
+            else:
+                ctx.violation(f.name, "reload marks saved only what was read", msg, f.loc(sv))
         return
-    rdvars = set()
-    for n, lv, op, rhs in stores(f.body):
-        if rhs is not None and op in ("=", "init") and is_call(strip_casts(rhs), "lbuf_rd") and lv["k"] in ("ref", "var"):
-            rdvars.add(lv["name"])
-    ob = cfg.pos(opens[0])[0]
-    for sv in saved:
-        sb = cfg.pos(sv)[0]
-        try:
-            paths = [p for p in enum_paths(cfg, ob, {sb}) if p[1] == sb]
-        except OverflowError:
-            raise AnalysisBroken("ec_edit: too many paths from open() to lbuf_saved()")
-        if not paths:
-            raise AnalysisBroken("ec_edit: lbuf_saved() not reachable from open()")
-        unjust = None
-        for items, _ in paths:
-            if not path_consistent(f, items):
-                continue
-            evs = [f.nodes.get(x[1]) for x in items if x[0] == "ev"]
-            did_read = any(e is not None and any(True for _ in calls_in(e, "lbuf_rd")) for e in evs) or \
-                any(x[0] == "br" and any(True for _ in calls_in(f.nodes[x[1]], "lbuf_rd")) for x in items)
-            ok = False
-            known = {}          # what the path has decided so far (conditions inside ?: arms)
-            for x in items:
-                if x[0] != "br":
-                    continue
-                c = f.nodes[x[1]]
-                t = int(bool(x[2]))
-                known = dict(known)
-                # the status of the read is zero
-                if did_read:
-                    envs = []
-                    for v in rdvars:
-                        envs += [{v: 1}, {v: -1}]
-                    for rc in calls_in(c, "lbuf_rd"):
-                        envs += [{key(rc): 1}, {key(rc): -1}]
-                    vals = [_ceval(c, dict(known, **e_)) for e_ in envs if any(k_ in key(c) for k_ in e_)]
-                    if vals and all(v is not None and v != t for v in vals):
-                        ok = True
-                # the buffer is empty
-                lens = list(calls_in(c, "lbuf_len"))
-                if lens:
-                    vals = [_ceval(c, dict(known, **{key(lens[0]): n_})) for n_ in (1, 7)]
-                    if all(v is not None and v != t for v in vals):
-                        ok = True
-                known[key(c)] = t
-            if not ok:
-                unjust = items
-                break
-        if unjust is None:
-            ctx.ok("ec_edit", "lbuf_saved() only after a read that returned 0 or on an empty buffer "
-                   "(%d paths from open())" % len(paths), loc=f.loc(sv))
+    # the loader returns a status; lbuf_saved() is in ec_edit
+    saved = list(top.calls("lbuf_saved"))
+    if not saved:
+        raise AnalysisBroken("ec_edit: no lbuf_saved()")
+    ps = _s8_paths(f, ob, None, rdvars)
+    # what can an unjustified path return?
+    bad_vals = set()
+    unknown = False
+    for items, just, known, did_read in ps:
+        if just:
             continue
-        # every way to the open() creates a fresh buffer?
-        fresh = list(f.calls("bufs_open"))
-        hit = cfg.search(cfg.entry, lambda e: e == opens[0]["id"],
-                         avoid=lambda e: any(e == b_["id"] for b_ in fresh), start_block=True)
-        if fresh and hit is None:
-            ctx.ok("ec_edit", "the buffer is a fresh one whenever the load is attempted", loc=f.loc(sv))
-        else:
+        rets = [f.nodes[x[1]] for x in items if x[0] == "ev" and f.nodes.get(x[1], {}).get("k") == "return"]
+        rv = rets[-1].get("e") if rets else None
+        if rv is None:
+            unknown = True          # void: the caller cannot tell
+            continue
+        got = set()
+        for rd_ in ((1, -1) if did_read else (0,)):
+            for ln_ in (1, 7):
+                env = dict(known)
+                for v in rdvars:
+                    env[v] = rd_
+                for lc in calls_in(rv, "lbuf_len"):
+                    env[key(lc)] = ln_
+                v = _ceval(resolve_local(f, rv), env)
+                if v is None:
+                    v = _ceval(rv, env)
+                got.add(v)
+        if None in got:
+            unknown = True
+        bad_vals |= {bool(v) for v in got if v is not None}
+    for sv in saved:
+        if always_fresh:
+            ctx.ok("ec_edit", "the buffer is a fresh one whenever the load is attempted", loc=top.loc(sv))
+            continue
+        # which truth values of the loader's result let control reach lbuf_saved()?
+        reach = set()
+        for tv in (False, True):
+            def edge_ok(bid, k, s_, tv=tv):
+                br = top.cfg.branch(bid)
+                if not br or br[1] == br[2]:
+                    return True
+                c = top.nodes[br[0]]
+                cs = [x for x in walk(c) if x["id"] == via["id"]]
+                res = {lv["name"] for n, lv, op, rhs in stores(top.body) if rhs is not None and
+                       any(x["id"] == via["id"] for x in walk(rhs)) and lv["k"] in ("ref", "var")}
+                env = {}
+                if cs:
+                    env[key(via)] = int(tv)
+                for r_ in res:
+                    env[r_] = int(tv)
+                if not env:
+                    return True
+                v = _ceval(c, env)
+                if v is None:
+                    return True
+                return bool(v) == (k == 0)
+            if top.cfg.search(top.cfg.pos(via), lambda e: e == sv["id"], edge_ok=edge_ok) is not None:
+                reach.add(tv)
+        if unknown or (reach & bad_vals):
             ctx.violation("ec_edit", "reload marks saved only what was read",
-                          "lbuf_saved() is reached from open() on a path where neither the read returned 0 nor "
-                          "the buffer is empty, and `:e!` without a file name reloads the current buffer (no "
-                          "bufs_open on that way in): when the file has disappeared or cannot be read, the text "
-                          "stays and is reported clean, so :q loses it", f.loc(sv))
+                          msg + " (the load is in %s(), whose result %s)" % (
+                              f.name, "does not tell" if unknown else "is %s on such a path and lbuf_saved() is still reached"
+                              % ("non-zero" if True in (reach & bad_vals) else "zero")), top.loc(sv))
+        else:
+            ctx.ok("ec_edit", "lbuf_saved() only under results of %s() that mean the read returned 0 or the buffer "
+                   "is empty" % f.name, loc=top.loc(sv))
 
 
 _TYBITS = {"char": 8, "signed char": 8, "unsigned char": 8, "short": 16, "unsigned short": 16,
@@ -720,14 +801,19 @@ def _neval(e, env):
 
 def rule_G9(ctx):
     """After each execution the global goes on scanning at or below every line it has yet to
-    visit.  Those lines were after the current one; they can have moved up, but not above the
-    lowest line that was changed.  So the resume index must be 0, or at most min(current index,
-    lowest change) where the lowest change comes from the line buffer: a field that
-    lbuf_replace lowers to its position on every path and that only its accessor raises.  With
-    nested globals the enclosing global's value is restored as min(its own, the inner one)."""
+    visit.  Those lines were after the current one (index i); they can have moved up, but not
+    above the lowest line that was changed (c): the first of them is at min(i + 1, c) or later.
+    One iteration of ec_glob's loop is evaluated over all its paths on a grid of orderings of
+    i, c, the enclosing global's tracker value and adversarial values of everything else
+    (cursor row, ...): the index handed to the next mark test must be in [0, min(i + 1, c)].
+    The lowest change is read from the line buffer: a field that lbuf_replace lowers to its
+    position on every path and nobody else stores; its accessors are evaluated on a model of
+    that field, and when the iteration ends the field must be at most min(value on entry, c),
+    so that an enclosing global learns what the nested one changed."""
     ctx.begin("G9", floor=2, what="the global resumes at or below the lines yet to visit")
     import itertools
     from ..bounds import path_states
+    from ..cfg import enum_paths
     from ..lin import prove_le, PROVEN
     prog = ctx.prog
     f = prog.func("ec_glob", file="ex.c")
@@ -741,92 +827,194 @@ def rule_G9(ctx):
     inloops = [h for h, body in loops.items() if xb_ in body]
     if not inloops:
         raise AnalysisBroken("ec_glob: ex_exec is not in a loop")
-    body = min((loops[h] for h in inloops), key=len)
-    # the scan index: first argument after the buffer of lbuf_globget in that loop
-    ivar = None
-    for c in f.calls("lbuf_globget"):
-        if cfg.pos(c)[0] in body and strip_casts(c["args"][1])["k"] == "ref":
-            ivar = strip_casts(c["args"][1])["name"]
-    if ivar is None:
-        raise AnalysisBroken("ec_glob: scan index of the mark test not found")
-    # the tracker accessor: an lbuf.c function that returns a field lbuf_replace stores
+    head = min(inloops, key=lambda h: len(loops[h]))
+    body = loops[head]
+    # scan sites: the mark test, directly or through a helper that applies it to its parameter
+    sites = {}
+    for c in f.calls():
+        if cfg.pos(c) is None or cfg.pos(c)[0] not in body:
+            continue
+        if c.get("fn") == "lbuf_globget":
+            sites[c["id"]] = c["args"][1]
+            continue
+        g = prog.resolve(f, c["fn"]) if c.get("fn") else None
+        if g is not None and g.file == f.file and g is not f:
+            pn = [p_["name"] for p_ in g.params]
+            for c2 in g.calls("lbuf_globget"):
+                a1 = strip_casts(c2["args"][1])
+                if a1["k"] == "ref" and a1["name"] in pn and pn.index(a1["name"]) < len(c["args"]):
+                    sites[c["id"]] = c["args"][pn.index(a1["name"])]
+    if not sites:
+        raise AnalysisBroken("ec_glob: no mark test in the loop")
+    ivars = {r_["name"] for e_ in sites.values() for r_ in refs(e_) if r_.get("cat") in ("local", "param")}
+    if len(ivars) != 1:
+        raise AnalysisBroken("ec_glob: scan index not a single local (%s)" % sorted(ivars))
+    ivar = ivars.pop()
+    # the tracker field: stored by lbuf_replace, read by an lbuf.c accessor that ec_glob calls
     rep = prog.func("lbuf_replace", file="lbuf.c")
-    rep_fields = {}
-    for n, lv, op, rhs in stores(rep.body):
-        fld = lv_field(lv)
-        if fld and lv["k"] == "member":
-            rep_fields.setdefault(lv["field"], []).append((n, op, rhs))
-    tracker = None
+    accessors = {}
+    fld = None
     for g in prog.funcs.values():
-        if g.file != "lbuf.c" or g is rep or not g.params:
+        if g.file != "lbuf.c" or g is rep or not g.params or not any(True for _ in f.calls(g.name)):
             continue
-        rets = [r for r in g.walk() if r["k"] == "return" and r.get("e") is not None]
-        if len(rets) != 1:
-            continue
-        rv = strip_casts(resolve_local(g, rets[0]["e"]))
-        if rv["k"] == "member" and rv.get("rec") == "lbuf" and rv["field"] not in ("ln_n", "ln_sz", "useq", "hist_n", "hist_u") \
-                and any(lv_["k"] == "member" and lv_["field"] == rv["field"] for _n, lv_, _o, _r in stores(g.body)):
-            if any(True for _ in f.calls(g.name)):
-                tracker = (g, rv["field"])
-    # the resume stores: stores to the scan index that ex_exec dominates, inside the loop, not the scan's own ++
-    resume = []
-    for n, lv, op, rhs in stores(f.body):
-        if lv["k"] == "ref" and lv["name"] == ivar and cfg.pos(n) and cfg.pos(n)[0] in body and \
-                cfg.dominates(ex, n) and op == "=":
-            resume.append((n, rhs))
-    if not resume:
-        # no store: the scan goes on from the current index -- fine only if nothing can move up
+        touched = {x["field"] for x in g.walk() if x["k"] == "member" and x.get("rec") == "lbuf"}
+        touched -= {"ln_n", "ln_sz", "ln", "ln_glob", "useq", "hist_n", "hist_u", "hist", "mark", "mark_off"}
+        if len(touched) == 1 and g.name not in ("lbuf_len", "lbuf_get", "lbuf_globget", "lbuf_globset"):
+            accessors[g.name] = g
+            fld = touched.pop()
+    LEN_, BIG = 9, 50
+
+    def run_iteration(i0, c_true, t_outer, err, adv):
+        """all paths of one iteration; yields (kind, detail)"""
+        try:
+            paths = enum_paths(cfg, head, {head}, within=body | {head})
+        except OverflowError:
+            raise AnalysisBroken("ec_glob: too many paths through one iteration")
+        out = []
+        for items, end in paths:
+            env = {ivar: i0}
+            model = {fld: t_outer} if fld else {}
+            vals = {}
+            passed = False
+            checked = False
+            dead = False
+            gset = set()
+
+            def val(e):
+                e = strip_casts(e)
+                if e["id"] in vals:
+                    return vals[e["id"]]
+                k = e["k"]
+                if k == "int":
+                    return e["v"]
+                if e.get("cv") is not None:
+                    return e["cv"]
+                if k == "ref":
+                    if e["name"] in env:
+                        return env[e["name"]]
+                    if e.get("cat") in ("global", "sglobal", "static") and e.get("ty") == "int":
+                        return adv
+                    return None
+                if k == "paren":
+                    return val(e["e"])
+                if k == "cond":
+                    c = val(e["c"])
+                    return None if c is None else val(e["t"] if c else e["f"])
+                if k == "un" and e["op"] in ("!", "-"):
+                    v = val(e["e"])
+                    return None if v is None else (int(not v) if e["op"] == "!" else -v)
+                if k == "bin" and e["op"] in ("<", "<=", ">", ">=", "==", "!=", "+", "-", "&&", "||"):
+                    x, y = val(e["l"]), val(e["r"])
+                    if e["op"] == "&&" and (x == 0 or y == 0):
+                        return 0
+                    if e["op"] == "||" and ((x is not None and x != 0) or (y is not None and y != 0)):
+                        return 1
+                    if x is None or y is None:
+                        return None
+                    return {"<": int(x < y), "<=": int(x <= y), ">": int(x > y), ">=": int(x >= y),
+                            "==": int(x == y), "!=": int(x != y), "+": x + y, "-": x - y,
+                            "&&": int(bool(x) and bool(y)), "||": int(bool(x) or bool(y))}[e["op"]]
+                if k == "bin" and e["op"] == "=":
+                    return val(e["r"])
+                return None
+
+            for it in items:
+                if it[0] == "br":
+                    v = val(f.nodes[it[1]])
+                    if v is not None and bool(v) != bool(it[2]):
+                        dead = True
+                        break
+                    continue
+                if it[0] != "ev":
+                    continue
+                n = f.nodes.get(it[1])
+                if n is None:
+                    continue
+                if n["k"] == "call":
+                    if n["id"] in sites and passed and not checked:
+                        checked = True
+                        r = val(sites[n["id"]])
+                        lim = min(i0 + 1, c_true)
+                        if r is None:
+                            out.append(("unknown", "index %s at the mark test not evaluable" % key(sites[n["id"]])))
+                        elif r < 0 or r > lim:
+                            out.append(("resume", "with the current line at %d, the lowest change at %d%s the scan "
+                                        "resumes at %d (the first line yet to visit may be at %d)" % (
+                                            i0, c_true, ", other globals = %d" % adv, r, lim)))
+                    if n["id"] == ex["id"]:
+                        passed = True
+                        if fld:
+                            model[fld] = min(model[fld], c_true)
+                        vals[n["id"]] = err
+                        for nm in gset:          # the command list may have set any global
+                            env[nm] = adv
+                    elif n.get("fn") in accessors:
+                        g = accessors[n["fn"]]
+                        args = [model] + [val(a_) for a_ in n["args"][1:]]
+                        if any(a_ is None for a_ in args[1:]):
+                            out.append(("unknown", "argument of %s not evaluable" % n["fn"]))
+                            vals[n["id"]] = None
+                        else:
+                            try:
+                                vals[n["id"]] = Interp(prog).call(g, args)
+                            except (Unsupported, OverRead) as e_:
+                                raise AnalysisBroken("%s not evaluable: %s" % (n["fn"], e_))
+                    elif n.get("fn") == "lbuf_len":
+                        vals[n["id"]] = LEN_
+                    else:
+                        vals[n["id"]] = None
+                    continue
+                tgt = rhs = None
+                if n["k"] in ("bin", "un") and (n.get("l") or n.get("e") or {}).get("cat") in ("global", "sglobal", "static"):
+                    gset.add((n.get("l") or n.get("e"))["name"])
+                if n["k"] == "bin" and n["op"] == "=" and n["l"]["k"] == "ref":
+                    tgt, rhs = n["l"]["name"], val(n["r"])
+                elif n["k"] == "bin" and n["op"] in ("+=", "-=") and n["l"]["k"] == "ref":
+                    x, y = val(n["l"]), val(n["r"])
+                    tgt, rhs = n["l"]["name"], (None if x is None or y is None else (x + y if n["op"] == "+=" else x - y))
+                elif n["k"] == "var" and "init" in n:
+                    tgt, rhs = n["name"], val(n["init"])
+                elif n["k"] == "un" and n["op"] in ("post++", "pre++", "post--", "pre--") and n["e"]["k"] == "ref":
+                    x = val(n["e"])
+                    tgt, rhs = n["e"]["name"], (None if x is None else x + (1 if "++" in n["op"] else -1))
+                if tgt is not None:
+                    env[tgt] = rhs
+            if dead or not passed:
+                continue
+            if fld and isinstance(model.get(fld), int) and model[fld] > min(t_outer, c_true):
+                out.append(("restore", "entered with %d, lowest change %d: the field is left at %d" % (
+                    t_outer, c_true, model[fld])))
+        return out
+
+    problems = {}
+    cases = 0
+    for i0, c_true, t_outer, err, adv in itertools.product((0, 1, 2, 5), (0, 1, 2, 5, LEN_), (0, 3, LEN_), (0, 1), (0, BIG)):
+        cases += 1
+        for kind, detail in run_iteration(i0, c_true, t_outer, err, adv):
+            problems.setdefault(kind, detail)
+    if "resume" in problems:
         ctx.violation("ec_glob", "the scan resumes at or below the lines yet to visit",
-                      "after ex_exec the index %s is left as it is: lines that the command list moved up "
-                      "(by deleting above them) are stepped over" % ivar, f.loc(ex))
+                      "%s: a command list that deletes lines above the current one and leaves the cursor below it "
+                      "(g/x/s/$/!/|1,2d|$) moves the lines yet to visit up past the resume point"
+                      % problems["resume"], f.loc(ex))
+    elif "unknown" in problems:
+        ctx.inconclusive("ec_glob", "the scan resumes at or below the lines yet to visit", problems["unknown"], f.loc(ex))
+    else:
+        ctx.ok("ec_glob", "index at the next mark test is in [0, min(i + 1, lowest change)] on every path of an "
+               "iteration, %d orderings" % cases, loc=f.loc(ex))
+    if not fld:
         return
-    curvars, lovars = set(), set()
-    if tracker:
-        for n, lv, op, rhs in stores(f.body):
-            if rhs is not None and op in ("=", "init") and is_call(strip_casts(rhs), tracker[0].name) and lv["k"] in ("ref", "var"):
-                (curvars if cfg.dominates(ex, n) else lovars).add(lv["name"])
-    BIG = 50
-
-    def bounded(e, names_min, what):
-        """e <= min of names_min and e >= 0 for all small values, whatever the other variables hold"""
-        others = sorted({r_["name"] for r_ in refs(e)} - set(names_min))
-        callkeys = sorted({key(c_) for c_ in calls_in(e)})
-        for vals in itertools.product((0, 1, 2, 5), repeat=len(names_min)):
-            for ov in itertools.product((0, BIG), repeat=len(others) + len(callkeys)):
-                env = dict(zip(names_min, vals))
-                env.update(zip(others + callkeys, ov))
-                v = _neval(e, env)
-                if v is None:
-                    return "not evaluable"
-                if v > min(vals) or v < 0:
-                    return "with %s it is %d" % (", ".join("%s=%d" % kv for kv in sorted(env.items())), v)
-        return None
-
-    for n, rhs in resume:
-        e = strip_casts(resolve_local(f, rhs))
-        if cval(e) == 0:
-            ctx.ok("ec_glob", "the scan restarts at line 0 after each execution", loc=f.loc(n))
-            continue
-        names = [ivar] + sorted(curvars)
-        why = bounded(e, names, "resume") if curvars else "no value from the line buffer's change tracker is used"
-        if why is None:
-            ctx.ok("ec_glob", "resume index <= min(%s) and >= 0 for all values" % ", ".join(names), loc=f.loc(n))
-        elif why == "not evaluable":
-            ctx.inconclusive("ec_glob", "the scan resumes at or below the lines yet to visit",
-                             "resume expression %s not understood" % key(e), f.loc(n))
-        else:
-            ctx.violation("ec_glob", "the scan resumes at or below the lines yet to visit",
-                          "%s = %s is not bounded by the lowest changed line (%s): a command list that deletes "
-                          "lines above the current one and leaves the cursor below it (g/x/s/$/!/|1,2d|$) moves "
-                          "the lines yet to visit up past the resume point" % (ivar, key(e), why), f.loc(n))
-    if not tracker:
-        return
-    g, fld = tracker
+    if "restore" in problems:
+        ctx.violation("ec_glob", "the enclosing global's tracker is restored",
+                      "%s: an enclosing global does not learn what the nested one changed and steps over lines"
+                      % problems["restore"], f.loc(ex))
+    else:
+        ctx.ok("ec_glob", "%s ends every iteration at most at min(value on entry, lowest change)" % fld, loc=f.loc(ex))
     # lbuf_replace lowers the field to its position on every path
     posn = rep.params[2]["name"] if len(rep.params) >= 3 else None
     try:
         sts = path_states(rep, "exit")
-    except Exception as e_:
+    except Exception:
         sts = None
     okp = bool(sts)
     if sts:
@@ -842,41 +1030,14 @@ def rule_G9(ctx):
         ctx.violation("lbuf_replace", "the change tracker is lowered by every splice",
                       "a path through lbuf_replace leaves %s above the splice position %s" % (fld, posn),
                       rep.loc(rep.body))
-    # nobody else stores it, except the accessor
+    # nobody else stores it, except the accessors
     for h in prog.funcs.values():
-        if h is rep or h is g:
+        if h is rep or h.name in accessors or h.name == "lbuf_make":
             continue
         for n, lv, op, rhs in stores(h.body):
             if lv["k"] == "member" and lv["field"] == fld and lv.get("rec") == "lbuf":
-                if h.name == "lbuf_make":
-                    continue
                 ctx.violation(h.name, "the change tracker is lowered by every splice",
                               "%s stores %s" % (h.name, fld), h.loc(n))
-    # the enclosing global's value is restored, merged with what the inner execution changed
-    restores = [c for c in f.calls(g.name) if cfg.dominates(ex, c) and cfg.pos(c)[0] in body]
-    good, other = [], []
-    for c in restores:
-        a = strip_casts(resolve_local(f, c["args"][-1]))
-        if cval(a) == 0 or (lovars and curvars and bounded(strip_casts(c["args"][-1]), sorted(lovars) + sorted(curvars), "restore") is None):
-            good.append(c)          # 0 is always sound (the enclosing global restarts at the top)
-        else:
-            other.append(c)
-    if not lovars:
-        ctx.ok("ec_glob", "the tracker is not reset by the global (nothing to restore)")
-        return
-    # the last tracker call on every way from ex_exec to the exit or round the loop sets a sound value
-    hit = None
-    for st in [ex] + other:
-        hit = hit or cfg.search(cfg.pos(st), lambda e: e == ("exit",) or e == ex["id"],
-                                avoid=lambda e: any(e == c_["id"] for c_ in good))
-    if hit is None and good:
-        ctx.ok("ec_glob", "the enclosing global's tracker value is set to min(saved, inner) (or 0) on every "
-               "path after ex_exec", loc=f.loc(good[0]))
-    else:
-        ctx.violation("ec_glob", "the enclosing global's tracker is restored",
-                      "the tracker is reset before ex_exec, and on a path after it the last value set is not "
-                      "min(saved value, inner value): an enclosing global does not learn what the nested one "
-                      "changed and steps over lines", f.loc((other or [ex])[0]))
 
 
 def rule_Q1(ctx):
@@ -982,6 +1143,530 @@ def rule_Q2(ctx):
                       f.loc(f.body))
 
 
+def rule_K6(ctx):
+    """Shaping looks at the nearest non-combining neighbours, and a letter at the start (end) of
+    the line has none: uc_shape is evaluated abstractly on short lines (letters, a diacritic in
+    between, Latin neighbours, the first and the last position) and the (previous, next) pair it
+    hands to the form table must be the nearest characters that uc_acomb does not call
+    combining, 0 at either end."""
+    ctx.begin("K6", floor=1, what="neighbours used for shaping")
+    prog = ctx.prog
+    f = prog.func("uc_shape", file="uc.c")
+    acomb = prog.func("uc_acomb", file="uc.c")
+    lines = ["\u0628", "\u0628\u062a", "\u0627\u0628\u062a", "\u0628\u064e\u062a", "a\u0628\u064e\u064f\u062ab",
+             "\u0628\u064e", "\u064e\u0628"]
+    n = 0
+
+    def comb(c):
+        try:
+            return bool(Interp(prog).call(acomb, [c]))
+        except (Unsupported, OverRead) as e:
+            raise AnalysisBroken("uc_acomb not evaluable: %s" % e)
+    for ln in lines:
+        b = ln.encode("utf-8")
+        offs = []
+        o = 0
+        for ch in ln:
+            offs.append(o)
+            o += len(ch.encode("utf-8"))
+        buf = tuple(b) + (0,)
+        for i, ch in enumerate(ln):
+            if not (0x600 <= ord(ch) <= 0x6ff) or comb(ord(ch)):
+                continue
+            want_prev = next((ord(c) for c in reversed(ln[:i]) if not comb(ord(c))), 0)
+            want_next = next((ord(c) for c in ln[i + 1:] if not comb(ord(c))), 0)
+            rec = []
+
+            def h_cshape(ip, fn, e, args, env):
+                rec.append(tuple(args))
+                return args[0]
+            base = Ptr(buf)
+            try:
+                Interp(prog, hooks={"uc_cshape": h_cshape, "uc_cput": lambda *a: None}).call(f, [base, base.add(offs[i])])
+            except OverRead as e:
+                ctx.violation("uc_shape", "neighbours used for shaping",
+                              "reads outside the line %r while shaping the character at %d: %s" % (ln, i, e), f.loc(f.body))
+                return
+            except Unsupported as e:
+                raise AnalysisBroken("uc_shape not evaluable: %s" % e)
+            n += 1
+            if not rec:
+                raise AnalysisBroken("uc_shape: no call of uc_cshape on %r" % ln)
+            cur, prev, nxt = rec[-1][:3]
+            if (cur, prev, nxt) != (ord(ch), want_prev, want_next):
+                ctx.violation("uc_shape", "neighbours used for shaping",
+                              "in the line %s the letter U+%04X at position %d is shaped with previous U+%04X and "
+                              "next U+%04X; its nearest non-combining neighbours are U+%04X and U+%04X (0 = none): "
+                              "the letter gets the form of a joined one" % (
+                                  " ".join("U+%04X" % ord(c) for c in ln), ord(ch), i,
+                                  prev if isinstance(prev, int) else -1, nxt if isinstance(nxt, int) else -1,
+                                  want_prev, want_next), f.loc(f.body))
+                return
+    ctx.ok("uc_shape", "previous / next are the nearest non-combining characters, none at the line's ends "
+           "(%d letters in %d lines)" % (n, len(lines)))
+
+
+def _walk_path(f, items, env, on_call):
+    """Evaluate one CFG path (items of enum_paths) over concrete small integers: assignments to
+    plain variables update env, branch conditions that evaluate against the path's direction
+    make it infeasible (returns False), on_call(node, val) gives the value of a call (and may
+    record it).  Only comparisons, !, &&, ||, ?:, + and - are evaluated; anything else is None."""
+    vals = {}
+
+    def val(e):
+        e = strip_casts(e)
+        if e["id"] in vals:
+            return vals[e["id"]]
+        k = e["k"]
+        if k == "int":
+            return e["v"]
+        if e.get("cv") is not None:
+            return e["cv"]
+        if k == "ref":
+            return env.get(e["name"])
+        if k == "paren":
+            return val(e["e"])
+        if k == "cond":
+            c = val(e["c"])
+            return None if c is None else val(e["t"] if c else e["f"])
+        if k == "un" and e["op"] in ("!", "-"):
+            v = val(e["e"])
+            return None if v is None else (int(not v) if e["op"] == "!" else -v)
+        if k == "bin" and e["op"] in ("<", "<=", ">", ">=", "==", "!=", "+", "-", "&&", "||"):
+            x, y = val(e["l"]), val(e["r"])
+            if e["op"] == "&&" and (x == 0 or y == 0):
+                return 0
+            if e["op"] == "||" and ((x is not None and x != 0) or (y is not None and y != 0)):
+                return 1
+            if x is None or y is None:
+                return None
+            return {"<": int(x < y), "<=": int(x <= y), ">": int(x > y), ">=": int(x >= y),
+                    "==": int(x == y), "!=": int(x != y), "+": x + y, "-": x - y,
+                    "&&": int(bool(x) and bool(y)), "||": int(bool(x) or bool(y))}[e["op"]]
+        if k == "bin" and e["op"] == "=":
+            return val(e["r"])
+        return None
+
+    for it in items:
+        if it[0] == "br":
+            v = val(f.nodes[it[1]])
+            if v is not None and bool(v) != bool(it[2]):
+                return False
+            continue
+        if it[0] != "ev":
+            continue
+        n = f.nodes.get(it[1])
+        if n is None:
+            continue
+        if n["k"] == "call":
+            vals[n["id"]] = on_call(n, val)
+            continue
+        tgt = rhs = None
+        if n["k"] == "bin" and n["op"] == "=" and n["l"]["k"] == "ref":
+            tgt, rhs = n["l"]["name"], val(n["r"])
+        elif n["k"] == "bin" and n["op"] in ("+=", "-=") and n["l"]["k"] == "ref":
+            x, y = val(n["l"]), val(n["r"])
+            tgt, rhs = n["l"]["name"], (None if x is None or y is None else (x + y if n["op"] == "+=" else x - y))
+        elif n["k"] == "var" and "init" in n:
+            tgt, rhs = n["name"], val(n["init"])
+        elif n["k"] == "un" and n["op"] in ("post++", "pre++", "post--", "pre--") and n["e"]["k"] == "ref":
+            x = val(n["e"])
+            vals[n["id"]] = x if n["op"].startswith("post") else (None if x is None else x + (1 if "++" in n["op"] else -1))
+            tgt, rhs = n["e"]["name"], (None if x is None else x + (1 if "++" in n["op"] else -1))
+        if tgt is not None:
+            env[tgt] = rhs
+    return True
+
+
+def rule_O3(ctx):
+    """dir_fix reverses the whole matched span exactly when the context is right-to-left and the
+    inner group exactly when the mark's own direction is right-to-left (whole span first), and
+    recurses into the inner group -- without its first character when the group starts the
+    match -- exactly when the mark has a nested group.  One iteration of its loop is evaluated
+    over all paths for the four sign combinations; which out-parameter of dir_match is the whole
+    match, the group and the direction is read from dir_match's own stores."""
+    ctx.begin("O3", floor=1, what="which spans dir_fix reverses")
+    import itertools
+    from ..cfg import enum_paths
+    prog = ctx.prog
+    f = prog.func("dir_fix", file="dir.c")
+    dm = prog.func("dir_match", file="dir.c")
+    pn = [p_["name"] for p_ in dm.params]
+    role = {}
+    for n, lv, op, rhs in stores(dm.body):
+        if lv["k"] == "un" and lv["op"] == "*" and strip_casts(lv["e"])["k"] == "ref" and strip_casts(lv["e"])["name"] in pn and rhs is not None:
+            nm = strip_casts(lv["e"])["name"]
+            subs = [x for x in walk(rhs) if x["k"] == "sub" and strip_casts(x["base"])["k"] == "ref" and strip_casts(x["base"])["name"] == "subs"]
+            if not subs:
+                if any(r_["name"] == "grp" for r_ in refs(rhs)):
+                    role["rec"] = pn.index(nm)
+                continue
+            ci = [cval(x["idx"]) for x in subs]
+            if all(c_ == 0 for c_ in ci):
+                role["wb"] = pn.index(nm)
+            elif all(c_ == 1 for c_ in ci):
+                role["we"] = pn.index(nm)
+            elif any(c_ is None for c_ in ci):
+                odd = any("+1" in key(x["idx"]).replace(" ", "") for x in subs if cval(x["idx"]) is None)
+                role["ce" if odd else "cb"] = pn.index(nm)
+    for c in dm.calls("conf_dirmark"):
+        for a_ in c["args"]:
+            a_ = strip_casts(a_)
+            if a_["k"] == "ref" and a_["name"] in pn and a_.get("ty", "").endswith("*"):
+                role["cdir"] = pn.index(a_["name"])
+    if set(role) != {"wb", "we", "cb", "ce", "cdir", "rec"}:
+        raise AnalysisBroken("dir_match: roles of the out-parameters not recognised (%s)" % sorted(role))
+    calls = list(f.calls("dir_match"))
+    if len(calls) != 1:
+        raise AnalysisBroken("dir_fix: one call of dir_match expected")
+    mc = calls[0]
+
+    def outvar(r_):
+        a_ = strip_casts(mc["args"][role[r_]])
+        if a_["k"] == "un" and a_["op"] == "&" and a_["e"]["k"] == "ref":
+            return a_["e"]["name"]
+        raise AnalysisBroken("dir_fix: argument %d of dir_match is not &variable" % role[r_])
+    V = {r_: outvar(r_) for r_ in role}
+    ctxarg = strip_casts(mc["args"][3])
+    if ctxarg["k"] != "ref":
+        raise AnalysisBroken("dir_fix: context argument of dir_match")
+    cfg = f.cfg
+    loops = cfg.loops()
+    mb = cfg.pos(mc)[0]
+    heads = [h for h, body in loops.items() if mb in body or h == mb]
+    if not heads:
+        raise AnalysisBroken("dir_fix: dir_match is not in a loop")
+    head = min(heads, key=lambda h: len(loops[h]))
+    body = loops[head] | {head}
+    paths = enum_paths(cfg, head, {head}, within=body)
+    n = 0
+    def effect(l):
+        o = list(range(20))
+        for g in l:
+            if g[0] == "rev":
+                if not (isinstance(g[1], int) and isinstance(g[2], int)):
+                    return None
+                o[g[1]:g[2]] = o[g[1]:g[2]][::-1]
+        return o, [g for g in l if g[0] == "fix"]
+
+    for dirv, cdir, rec, cb in itertools.product((-1, 1), (-1, 1), (0, 1), (2, 4)):
+        ce = 7
+        if not rec:            # a mark without a nested group: the group is the whole match
+            cb, ce = 2, 9
+        want = ([("rev", 2, 9)] if dirv < 0 else []) + ([("rev", cb, ce)] if cdir < 0 else []) + \
+               ([("fix", cdir, cb + (1 if cb == 2 else 0), ce)] if rec else [])
+        for items, end in paths:
+            if end != head:
+                continue
+            got = []
+            env = {ctxarg["name"]: dirv, "beg": 0, "end": 20}
+
+            def on_call(nd, val, env=None):
+                return None
+            def mk(env):
+                def on_call(nd, val):
+                    fn = nd.get("fn")
+                    if nd["id"] == mc["id"]:
+                        env.update({V["wb"]: 2, V["we"]: 9, V["cb"]: cb, V["ce"]: ce, V["cdir"]: cdir, V["rec"]: rec})
+                        return 0
+                    if fn == "dir_reverse":
+                        got.append(("rev", val(nd["args"][1]), val(nd["args"][2])))
+                    elif fn == "dir_fix":
+                        got.append(("fix", val(nd["args"][2]), val(nd["args"][3]), val(nd["args"][4])))
+                    return None
+                return on_call
+            if not _walk_path(f, items, env, mk(env)):
+                continue
+            if not any(x[0] == "ev" and x[1] == mc["id"] for x in items):
+                continue
+            n += 1
+            if effect(got) != effect(want):
+                show = lambda l: ", ".join("%s%s" % ("reverse" if g[0] == "rev" else "recurse", g[1:]) for g in l) or "nothing"
+                ctx.violation("dir_fix", "spans reversed for a matched mark",
+                              "context %s, mark direction %s, %s nested group, match [2,9) with group [%d,%d): dir_fix does "
+                              "{%s}; the whole match is reversed iff the context is right-to-left and the group iff the "
+                              "mark is, i.e. {%s}" % ("rtl" if dirv < 0 else "ltr", "rtl" if cdir < 0 else "ltr",
+                                                    "with a" if rec else "without", cb, ce, show(got), show(want)), f.loc(mc))
+                return
+    if n < 16:
+        raise AnalysisBroken("dir_fix: only %d iteration paths evaluated" % n)
+    ctx.ok("dir_fix", "whole match reversed iff the context is rtl, group iff the mark is rtl, recursion into the "
+           "group iff nested (%d path x sign cases)" % n)
+
+
+def rule_V8(ctx):
+    """Whether a change command is recorded for `.` depends on the command just typed only: the
+    copy of the key record into the repeat buffer (and its length, and register `.`) is guarded
+    by nothing but values of the current iteration of the main loop -- a guard that reads a
+    static or global variable makes recording depend on what happened before."""
+    ctx.begin("V8", floor=2, what="the repeat record is saved for every change command")
+    prog = ctx.prog
+    f = prog.func("vi", file="vi.c")
+    rep = None
+    sites = []
+    for c in f.calls("memcpy"):
+        a0 = strip_casts(c["args"][0])
+        if a0["k"] == "ref" and a0.get("cat") in ("global", "sglobal", "static") and \
+                any("arr_n" in g_ for g_ in prog.globals.get(a0["name"], [])):
+            rep = a0["name"]
+            sites.append((c, "copy into %s" % rep))
+    if rep is None:
+        raise AnalysisBroken("vi(): copy into the repeat buffer not found")
+    for c in f.calls("reg_put"):
+        if cval(c["args"][0]) == ord("."):
+            sites.append((c, "register `.`"))
+    loopconds = set()
+    for lp in f.walk():
+        if lp["k"] in ("while", "for", "do") and lp.get("c") is not None:
+            c_, _t = negate_truth(lp["c"], True)
+            loopconds.add(key(c_))
+    for c, what in sites:
+        bad = None
+        for cc, t in fact_list(f, c["id"]):
+            if key(cc) in loopconds:
+                continue
+            for r_ in refs(cc):
+                if r_.get("cat") in ("global", "sglobal", "static"):
+                    if any("arr_n" in g_ for g_ in prog.globals.get(r_["name"], [])):
+                        continue                  # an array's name (its size), not a state
+                    bad = bad or (cc, r_["name"])
+        if bad:
+            ctx.violation("vi", "the repeat record is saved for every change command",
+                          "the %s is under the test %s of the %s variable %s: whether a change is recorded for `.` "
+                          "depends on earlier commands (a change typed after `N.` is not recorded and a later `.` "
+                          "repeats an older one)" % (what, key(bad[0]), "static", bad[1]), f.loc(c))
+        else:
+            ctx.ok("vi", "%s guarded by values of the current command only" % what, loc=f.loc(c))
+
+
+def rule_V7(ctx):
+    """pos_next / pos_prev pick the nearest column whatever the order of pos[]: on a reordered
+    (bidi) line the columns are not increasing with the character index.  Both are evaluated
+    abstractly on every arrangement of up to four columns drawn from 0..5 (duplicates = width 0
+    included), every probe column and both `cur` values, against min / max over the
+    qualifying entries."""
+    ctx.begin("V7", floor=2, what="nearest column independent of the order of pos[]")
+    import itertools
+    prog = ctx.prog
+    for name, pick in (("pos_next", min), ("pos_prev", max)):
+        f = prog.func(name, file="ren.c")
+        n = 0
+        bad = None
+        for L in range(0, 5):
+            for arr in itertools.product(range(0, 6, 1 if L < 4 else 2), repeat=L):
+                for p in range(-1, 7):
+                    for cur in (0, 1):
+                        if name == "pos_next":
+                            q = [v for v in arr if v - (0 if cur else 1) >= p]
+                        else:
+                            q = [v for v in arr if v + (0 if cur else 1) <= p]
+                        want = pick(q) if q else -1
+                        try:
+                            got = Interp(prog).call(f, [dict(enumerate(arr)), L, p, cur])
+                        except (Unsupported, OverRead) as e:
+                            raise AnalysisBroken("%s not evaluable: %s" % (name, e))
+                        n += 1
+                        if got != want and bad is None:
+                            bad = (arr, p, cur, got, want)
+        if bad:
+            arr, p, cur, got, want = bad
+            ctx.violation(name, "nearest column whatever the order of pos[]",
+                          "%s(pos=%s, p=%d, cur=%d) returns %s, the %s qualifying column is %d: on a line with a "
+                          "reversed run the cursor lands on the wrong character" % (
+                              name, list(arr), p, cur, got, "smallest" if pick is min else "largest", want), f.loc(f.body))
+        else:
+            ctx.ok(name, "%s of the qualifying columns on %d (arrangement, probe, cur) cases" % (
+                "minimum" if pick is min else "maximum", n))
+
+
+def _h_atoi(ip, f, e, args, env):
+    p_ = args[0]
+    if not isinstance(p_, Ptr):
+        raise Unsupported("atoi of a non-string")
+    i, sgn, v = 0, 1, 0
+    while p_.read(i) in (0x20, 0x09):
+        i += 1
+    if p_.read(i) in (0x2b, 0x2d):
+        sgn = -1 if p_.read(i) == 0x2d else 1
+        i += 1
+    while 0x30 <= p_.read(i) <= 0x39:
+        v = v * 10 + p_.read(i) - 0x30
+        i += 1
+    return sgn * v
+
+
+def rule_X10(ctx):
+    """Line addresses: an address is its base (number, `.`, `$`) plus *all* the signed offsets
+    that follow it, a range is the last two addresses of the list, and `;` makes the address
+    before it the current line for the ones after.  ex_region (with ex_lineno) is evaluated
+    abstractly on a list of address strings for a 10-line buffer with the cursor on line 5 and
+    compared with that reference reading."""
+    ctx.begin("X10", floor=1, what="address lists: offsets chain, last two addresses, `;`")
+    prog = ctx.prog
+    f = prog.func("ex_region", file="ex.c")
+    L, XROW = 10, 4
+
+    def ref(loc):
+        cur = XROW
+        addrs = []
+        i = 0
+        while i < len(loc):
+            c = loc[i]
+            if c == ".":
+                n = cur
+                i += 1
+            elif c == "$":
+                n = L - 1
+                i += 1
+            elif c.isdigit():
+                j = i
+                while j < len(loc) and loc[j].isdigit():
+                    j += 1
+                n = int(loc[i:j]) - 1
+                i = j
+            else:
+                n = cur
+            while i < len(loc) and loc[i] in "+-":
+                j = i + 1
+                while j < len(loc) and loc[j].isdigit():
+                    j += 1
+                n += int(loc[i:j]) if j > i + 1 else 0
+                i = j
+            addrs.append(n)
+            while i < len(loc) and loc[i] not in ",;":
+                i += 1
+            if i < len(loc):
+                if loc[i] == ";":
+                    cur = n
+                i += 1
+        beg = addrs[-2] if len(addrs) > 1 else addrs[-1]
+        end = addrs[-1] + 1
+        if beg < 0 and end == 0:
+            beg = 0
+        if beg < 0 or beg >= L or end < beg or end > L:
+            return None
+        return beg, end
+    cases = ["3", "2,4", "1,2,4", "2;+1", "1,2;+1", "1,3;+1,+2", "2+1+1", "$-1-1", ".+2+1,$", "5-1+3",
+             "2+1+1,$-1-1", "11", "4,2", ".,.+1+1", "1,2,3,4", "$", ".", "3;.,+1+1"]
+    n = 0
+    for loc in cases:
+        b, e_ = {"__deref__": OPAQUE}, {"__deref__": OPAQUE}
+        try:
+            rv = Interp(prog, hooks={"atoi": _h_atoi, "lbuf_len": lambda *a: L, "ex_lbuf": lambda *a: {}},
+                        globals_={"xrow": XROW}, shared_globals=True).call(f, [Ptr(tuple(loc.encode()) + (0,)), b, e_])
+        except (Unsupported, OverRead) as ex_:
+            raise AnalysisBroken("ex_region(%r) not evaluable: %s" % (loc, ex_))
+        n += 1
+        want = ref(loc)
+        got = None if rv != 0 else (b["__deref__"], e_["__deref__"])
+        if got != want:
+            sh = lambda r: "rejected" if r is None else "lines %d..%d" % (r[0] + 1, r[1])
+            ctx.violation("ex_region", "address list read as base + all offsets, last two addresses",
+                          "`%s` (10 lines, cursor on line 5) is %s; by the reference reading it is %s" % (
+                              loc, sh(got), sh(want)), f.loc(f.body))
+            return
+    ctx.ok("ex_region", "%d address lists agree with the reference reading" % n)
+
+
+def rule_O4(ctx):
+    """The base direction of a line follows the textdirection option as documented: +2 / -2
+    always ltr / rtl; +1 / -1 follow the context patterns and are ltr / rtl for lines that match
+    none; 0 is ltr when the first character is single-byte and follows the patterns otherwise.
+    dir_context is evaluated abstractly for the five option values and four kinds of first
+    character, the pattern set modelled as (rtl letter -> -1, Latin letter or digit -> +1)."""
+    ctx.begin("O4", floor=1, what="base direction from the option and the context patterns")
+    prog = ctx.prog
+    f = prog.func("dir_context", file="dir.c")
+    kinds = {"latin": "a", "ascii neutral": " ", "rtl letter": "\u0628", "other multi-byte": "\u00e9"}
+    n = 0
+    for xtd in (-2, -1, 0, 1, 2):
+        for kind, ch in kinds.items():
+            idx = {"rtl letter": 0, "latin": 1}.get(kind, -1)
+
+            def h_find(ip, fn, e, args, env, idx=idx):
+                return idx
+
+            def h_ctx(ip, fn, e, args, env):
+                i_ = args[0]
+                if not isinstance(i_, int) or i_ < 0 or i_ > 1:
+                    return 1
+                for a_ in args[1:]:
+                    if isinstance(a_, dict) and "__deref__" in a_:
+                        a_["__deref__"] = (-1, 1)[i_]
+                return 0
+            try:
+                got = Interp(prog, hooks={"rset_find": h_find, "conf_dircontext": h_ctx},
+                             globals_={"xtd": xtd, "dir_rsctx": {"set": 1}}).call(
+                                 f, [Ptr(tuple((ch + "bc").encode("utf-8")) + (0,))])
+            except (Unsupported, OverRead) as e:
+                raise AnalysisBroken("dir_context not evaluable: %s" % e)
+            pat = {0: -1, 1: 1}.get(idx)
+            if xtd >= 2:
+                want = 1
+            elif xtd <= -2:
+                want = -1
+            elif xtd == 0 and ord(ch) < 0x80:
+                want = 1
+            else:
+                want = pat if pat is not None else (-1 if xtd < 0 else 1)
+            n += 1
+            if got != want:
+                ctx.violation("dir_context", "base direction as documented for textdirection",
+                              "td=%+d and a line starting with a %s character: dir_context gives %s, the documented "
+                              "direction is %+d" % (xtd, kind, got, want), f.loc(f.body))
+                return
+    ctx.ok("dir_context", "%d (option, first character) cases agree with the documented meaning of td" % n)
+
+
+def rule_V9(ctx):
+    """f / F / t / T with a count, also a negative one (`,` repeats the search the other way):
+    the n-th occurrence in the effective direction, and for t / T one character back towards
+    where the search came from.  lbuf_findchar is evaluated abstractly on two short lines (one
+    with a two-byte character) for every command letter, count in +-1..2 and start offset, and
+    compared with that reading; a failed search leaves the offset alone."""
+    ctx.begin("V9", floor=1, what="character search with counts in both directions")
+    prog = ctx.prog
+    f = prog.func("lbuf_findchar", file="mot.c")
+    n = 0
+    for ln, tgt in (("a x b x c", "x"), ("x\u00e9x.x", "x")):
+        chars = list(ln)
+        buf = Ptr(tuple((ln + "\n").encode("utf-8")) + (0,))
+        for cmd in "fFtT":
+            for cnt in (1, 2, -1, -2):
+                for off in range(len(chars)):
+                    d = 1 if cmd in "ft" else -1
+                    if cnt < 0:
+                        d = -d
+                    k, pos, left = off, None, abs(cnt)
+                    while left:
+                        k += d
+                        if k < 0 or k >= len(chars):
+                            break
+                        if chars[k] == tgt:
+                            left -= 1
+                    want = None
+                    if not left:
+                        want = k - d if cmd in "tT" else k
+                    row, o = {"__deref__": 0}, {"__deref__": off}
+                    try:
+                        rv = Interp(prog, hooks={"lbuf_get": lambda *a: buf}).call(
+                            f, [{}, Ptr(tuple(tgt.encode()) + (0,)), ord(cmd), cnt, row, o])
+                    except (Unsupported, OverRead) as e:
+                        raise AnalysisBroken("lbuf_findchar not evaluable: %s" % e)
+                    n += 1
+                    got = o["__deref__"] if rv == 0 else None
+                    if got != want or (want is None and o["__deref__"] != off):
+                        ctx.violation("lbuf_findchar", "n-th occurrence in the effective direction",
+                                      "on `%s` from offset %d, `%s` with count %d gives %s; the %d. `%s` %s is at %s%s" % (
+                                          ln, off, cmd, cnt, "offset %s" % got if got is not None else "no match",
+                                          abs(cnt), tgt, "to the right" if d > 0 else "to the left",
+                                          "none" if want is None else "offset %d" % (want + d if cmd in "tT" else want),
+                                          "" if want is None or cmd in "fF" else ", one short of it: offset %d" % want),
+                                      f.loc(f.body))
+                        return
+    ctx.ok("lbuf_findchar", "%d (line, command, count, start) cases agree with the reference reading" % n)
+
+
 def rule_T10(ctx):
     """A typed multi-byte character is read whole: led_readchar, evaluated abstractly for every
     kind of lead byte with its static buffer in the initial (all zero) state, reads exactly the
@@ -1071,4 +1756,4 @@ def rule_R14(ctx):
 
 
 RULES = {"M5": rule_M5, "L6": rule_L6, "P3": rule_P3, "X9": rule_X9, "U6": rule_U6, "T7": rule_T7,
-         "T8": rule_T8, "S6": rule_S6, "S7": rule_S7, "B15": rule_B15, "T9": rule_T9, "T10": rule_T10, "Q2": rule_Q2, "Q1": rule_Q1, "G9": rule_G9, "G8": rule_G8, "S8": rule_S8, "R14": rule_R14}
+         "T8": rule_T8, "S6": rule_S6, "S7": rule_S7, "B15": rule_B15, "T9": rule_T9, "T10": rule_T10, "V9": rule_V9, "O4": rule_O4, "X10": rule_X10, "V7": rule_V7, "V8": rule_V8, "O3": rule_O3, "K6": rule_K6, "Q2": rule_Q2, "Q1": rule_Q1, "G9": rule_G9, "G8": rule_G8, "S8": rule_S8, "R14": rule_R14}
